@@ -41,7 +41,7 @@ def build(seed):
         else:
             create("")
     n_seal = len(ops)
-    kind = rnd.choice(["none", "alter", "remove", "add", "rename", "mkdir", "rmdir", "root_alter", "root_add"])
+    kind = rnd.choice(["none", "alter", "remove", "add", "rename", "mkdir", "rmdir", "root_alter", "root_add", "bitrot", "bitrot"])
     truth = False
     files = sorted(fs.files)
     rootfiles = [p for p in files if "/" not in p]
@@ -49,6 +49,15 @@ def build(seed):
         p = rnd.choice(files)
         ops.append({"op": "write", "path": p, "data": gen.enc(fs.files[p] + "~")})
         truth = not mutate.hidden(p, pats)
+    elif kind == "bitrot" and [p for p in files if fs.files[p]]:
+        # same length, same modification time: only the bytes differ
+        p = rnd.choice([p for p in files if fs.files[p]])
+        c = fs.files[p]
+        c2 = c[:-1] + ("#" if c[-1] != "#" else "%")
+        ops.append({"op": "write", "path": p, "data": gen.enc(c2), "mtime": 1760000000})
+        truth = not mutate.hidden(p, pats) and len(c2.encode("utf-8", "surrogatepass")) == len(c.encode("utf-8", "surrogatepass"))
+        if not truth and not mutate.hidden(p, pats):
+            truth = True
     elif kind == "root_alter" and rootfiles:
         p = rnd.choice(rootfiles)
         ops.append({"op": "write", "path": p, "data": gen.enc(fs.files[p] + "~")})
@@ -81,11 +90,22 @@ def build(seed):
             d = rnd.choice(empties)
             ops.append({"op": "rm", "path": d})
             truth = not mutate.hidden(d, pats)
+    # the changed tree is sealed once more (same single format throughout): it still differs from what the EARLIER
+    # generations recorded, so verify -dh has to fail although the newest generation matches
+    resealed = truth and rnd.random() < 0.25
+    if resealed:
+        f0 = rnd.choice(gen.FORMATS)
+        for o in ops:
+            if o["op"] == "create":
+                o["h"] = [f0]
+                o.pop("n", None)
+        t[0] += 1
+        ops.append({"op": "create", "at": "", "h": [f0], "now": "2026-03-01 12:10:%02d" % t[0], **({"i": pats} if pats else {})})
     op = {"op": "verifydh", "at": ""}
     if rnd.random() < 0.2:
         op["spell"] = rnd.choice(["slash", "relative", "cwd"])
     ops.append(op)
-    return {"seed": seed, "profile": "c09", "root": "root", "tree": tree, "ops": ops, "c09": {"kind": kind, "changed": truth, "n_seal": n_seal, "patterns": pats, "flat": flat}}
+    return {"seed": seed, "profile": "c09", "root": "root", "tree": tree, "ops": ops, "c09": {"kind": kind, "changed": truth, "n_seal": n_seal, "patterns": pats, "flat": flat, "resealed": resealed}}
 
 
 def monitor(sc, res):
@@ -101,7 +121,7 @@ def monitor(sc, res):
         if meta and not op.get("h") and not op.get("ro"):
             exp = 12 if meta["changed"] else 0
             if io_["exit"] != exp:
-                fails.append({"what": f"verify -dh exits {io_['exit']}, expected {exp}: mutation {meta['kind']} (effective: {meta['changed']}), flat folder: {meta['flat']}, patterns {meta['patterns']}", "replay": sc})
+                fails.append({"what": f"verify -dh exits {io_['exit']}, expected {exp}: mutation {meta['kind']} (effective: {meta['changed']}), flat folder: {meta['flat']}, patterns {meta['patterns']}, sealed again after the change: {meta.get('resealed', False)}", "replay": sc})
     return fails
 
 
@@ -110,7 +130,7 @@ def run(ctx):
     # general scenarios: only the "never aborts" part is judged there
     scs += _scn.standard_pool(ctx, ctx.scale(25, 400), ctx.scale(15, 250))
     return _scn.run_scn(ctx, scs, monitor, extra_fails=largefiles.extra(ctx), witness_ids=("D2a", "D2b", "D2c"),
-        assumptions=["reading adopted (DESIGN.md 9): exit 0 is required when the tree is what EVERY generation recorded, 12 when it differs from what every directory-hash-bearing generation recorded; verify -dh without -h", "the changed content/name has a different digest in every format used (observed)"])
+        assumptions=["reading adopted (DESIGN.md 9): exit 0 is required when the tree is what EVERY generation recorded, 12 when, in every format that is verified, it differs from what SOME directory-hash-bearing generation recorded (a later generation that matches does not excuse an earlier one); verify -dh without -h", "the changed content/name has a different digest in every format used (observed)"])
 
 
 def replay(ctx, path):
